@@ -42,8 +42,9 @@ pub enum PointSpec {
     AffineComb(Vec<i8>),
 }
 
-#[derive(Debug, Clone, Serialize, Deserialize, PartialEq)]
+#[derive(Debug, Clone, Default, Serialize, Deserialize, PartialEq)]
 pub enum UuidSpec {
+    #[default]
     Fresh,
     /// reuse the UUID of a live vertex
     Live(u16),
@@ -55,7 +56,13 @@ pub enum UuidSpec {
 pub enum Op {
     Insert { p: PointSpec, stats: bool, uuid: UuidSpec },
     Remove { v: u16, unknown: bool },
-    FlipK1Insert { cell: u16, w: Vec<u8> },
+    FlipK1Insert {
+        cell: u16,
+        w: Vec<u8>,
+        /// UUID of the vertex handed to the flip (older replay files have none: fresh)
+        #[serde(default)]
+        uuid: UuidSpec,
+    },
     FlipK1Remove { v: u16 },
     FlipK2 { cell: u16, facet: u8 },
     FlipK3 { cell: u16, a: u8, b: u8 },
@@ -528,11 +535,15 @@ impl<K: Kern<D>, const D: usize> World<K, D> {
                     }
                 }
             }
-            Op::FlipK1Insert { cell, w } => {
+            Op::FlipK1Insert { cell, w, uuid } => {
                 let (ck, adv) = self.cell_key(before, *cell);
                 let coords = if adv { vec![0.125; D] } else { self.resolve_point(before, &PointSpec::CellBary(*cell, w.clone())) };
                 self.next_id += 1;
-                let u = uuid_for(self.salt, self.next_id).as_u128();
+                let u = match uuid {
+                    UuidSpec::Live(i) if !before.verts.is_empty() => before.verts[pick(*i, before.verts.len())].uuid,
+                    UuidSpec::Dead(i) if !self.removed.is_empty() => self.removed[pick(*i, self.removed.len())].0,
+                    _ => uuid_for(self.salt, self.next_id).as_u128(),
+                };
                 let data = Some((self.next_id as i64) * 3 + 1);
                 r = Resolved { desc: format!("flip_k1_insert cell {:#x} at {:?}", ck, coords), coords: Some(coords.clone()), uuid: Some(u), data, adversarial: adv, ..Default::default() };
                 let v = mk_vertex::<i32, D>(&coords, uuid::Uuid::from_u128(u), data);
@@ -727,10 +738,10 @@ pub fn op_strategy_ext(dim: usize, mix: OpMix, extreme: bool) -> BoxedStrategy<O
     } else {
         point_spec(dim)
     };
-    let insert = (pspec, any::<bool>(), uuid).prop_map(|(p, stats, uuid)| Op::Insert { p, stats, uuid });
+    let insert = (pspec, any::<bool>(), uuid.clone()).prop_map(|(p, stats, uuid)| Op::Insert { p, stats, uuid });
     let remove = (any::<u16>(), prop_oneof![9 => Just(false), 1 => Just(true)]).prop_map(|(v, unknown)| Op::Remove { v, unknown });
     let flips = prop_oneof![
-        2 => (sel(), proptest::collection::vec(0u8..8, dim + 1)).prop_map(|(cell, w)| Op::FlipK1Insert { cell, w }),
+        2 => (sel(), proptest::collection::vec(0u8..8, dim + 1), uuid.clone()).prop_map(|(cell, w, uuid)| Op::FlipK1Insert { cell, w, uuid }),
         2 => sel().prop_map(|v| Op::FlipK1Remove { v }),
         4 => (sel(), prop_oneof![12 => 0u8..6, 1 => 250u8..=255]).prop_map(|(cell, facet)| Op::FlipK2 { cell, facet }),
         3 => (sel(), prop_oneof![12 => 0u8..6, 1 => 250u8..=255], 0u8..6).prop_map(|(cell, a, b)| Op::FlipK3 { cell, a, b }),
